@@ -75,6 +75,80 @@ theorem cbDiff_nil_left (o : Nat) (tm : Mask) :
 theorem bounds_frame {w w' : WM} {iss : List Handle} (hb : Bounds ⟨w, iss⟩) (hs : w'.slots = w.slots) :
     Bounds ⟨w', iss⟩ := ⟨by show w'.slots.length < _; rw [hs]; exact hb.inRange, hb.noWrap⟩
 
+/-- unlocked `create(mask, shared descriptor)` against `WS.doCreate` with ANY list of shared values that reads like
+the descriptor (the `.create` operation: type ids at value 0 through the pool; `create(Archetype&)`: the instances
+the archetype already has) -/
+theorem create_unlocked_core {w1 : WM} {iss : List Handle} {s : WS} (hi1 : Inv ⟨w1, iss⟩) (hb1 : Bounds ⟨w1, iss⟩)
+    (hr1 : Rel ⟨w1, iss⟩ s) (hl1 : w1.isLocked = false) (t : Nat) (mask : Mask) (hm : MaskOk mask) (sh : Shared)
+    (hshin : SharedIn w1.pool sh) (ssh : List (Nat × Nat))
+    (hv : ∀ sid, lookupS ssh sid = lookupS (absShared w1.pool sh) sid)
+    (hb' : Bounds ⟨(w1.create info t mask sh).1, iss ++ [(w1.create info t mask sh).2.1]⟩) :
+    Inv ⟨(w1.create info t mask sh).1, iss ++ [(w1.create info t mask sh).2.1]⟩ ∧
+    Rel ⟨(w1.create info t mask sh).1, iss ++ [(w1.create info t mask sh).2.1]⟩ (s.doCreate info mask ssh).1 ∧
+    outAgree (iss ++ [(w1.create info t mask sh).2.1]) (.created (w1.create info t mask sh).2.1)
+      (.created (s.doCreate info mask ssh).2.1) ∧
+    cbsAgree (iss ++ [(w1.create info t mask sh).2.1]) (w1.create info t mask sh).2.2 (s.doCreate info mask ssh).2.2 := by
+  have ha1 : AllocOK w1 := allocOK_of_inv (c := ⟨w1, iss⟩) hi1 hb1
+  rcases create_unlocked info hi1.rows ha1 t mask sh hl1 hm with ⟨ai, vals, hstep, howns, hmask, hdata, hvals, hfresh⟩
+  rcases create_form info w1 t mask sh hl1 with ⟨vals2, hform⟩
+  have facts := bornFacts_insert w1 mask sh vals2
+  have hw'eq : (w1.create info t mask sh).1 =
+      insertRow ((w1.getArch mask sh).1.allocId).1 (w1.getArch mask sh).2 ((w1.getArch mask sh).1.allocId).2 vals2 := by
+    rw [hform]
+  have hheq : (w1.create info t mask sh).2.1 = ((w1.getArch mask sh).1.allocId).2 := by rw [hform]
+  have hcbeq : (w1.create info t mask sh).2.2 =
+      ((closedMask w1.deps mask).filter (fun c => (info c).callbacks && !([] : Mask).contains c)).map
+          (Cb.assign · (w1.create info t mask sh).2.1) := by rw [hform]
+  rw [← hw'eq, ← hheq] at facts
+  rw [hcbeq]
+  generalize hw'def : (w1.create info t mask sh).1 = w' at *
+  generalize hhdef : (w1.create info t mask sh).2.1 = h at *
+  have htab := Mustache.Proofs.IdTable.create_tab info w1 t mask sh
+  rw [hw'def, hhdef] at htab
+  simp only [hl1, Bool.false_eq_true, if_false] at htab
+  have hpool' : w'.pool = w1.pool := facts.ctl.pool
+  have hdeps' : w'.deps = w1.deps := facts.ctl.deps
+  have hsh' : SharedPooled w' := by
+    have h1 := AllKeys.getArch (P := fun _ x => SharedIn w1.pool x) (w := w1) hi1.shared mask sh hshin
+    have h2 := h1.keysSame facts.keys
+    show AllKeys (fun _ x => SharedIn w'.pool x) w'
+    rw [hpool']; exact h2
+  have hdeps1 : s.deps = w1.deps := hr1.deps
+  -- the new record
+  have hailt : ai < w'.archs.length := by
+    rcases howns.here with ⟨n, _, hrow⟩; exact lt_of_row hrow
+  have hshai : (w'.arch ai).shared = sh := by
+    have h1 : SharedIn w1.pool (w'.arch ai).shared := by
+      have := hsh' _ (arch_mem hailt)
+      rw [← hpool']; exact this
+    exact shared_eq_of_data hi1.pool h1 hshin hdata
+  have htmok : MaskOk (closedMask w1.deps mask) := maskOk_closedMask w1.deps hm
+  have hvlen : vals.length = (closedMask w1.deps mask).length := by
+    rcases howns.here with ⟨n, _, hrow⟩
+    have := hstep.ok.vals ai n _ hrow
+    rw [hmask] at this
+    exact this
+  have hx : optRel (some ⟨rebuild info [] (closed s.deps mask) [], ssh⟩) (absEnt w' h) := by
+    rw [owns_absEnt howns, hmask, hshai, hpool']
+    refine ⟨?_, fun sid => ?_⟩
+    · show rebuild info [] (closed s.deps mask) [] = _
+      rw [hdeps1]
+      symm
+      apply zip_eq_rebuild info (maskOk_nodup htmok) hvlen
+      intro x hx
+      rw [specPair_nil, hvals x hx]
+    · exact hv sid
+  have hborn := born_refines hi1 hr1 hl1 htab.1 htab.2 hstep howns hfresh hsh' facts.ctl facts.marked
+    (facts.cover hi1.locsCover) hb' _ hx
+  simp only [WS.doCreate]
+  refine ⟨hborn.1, hborn.2, ⟨?_, ?_⟩, ?_⟩
+  · rw [hr1.len]; exact ordOf_snoc_self iss h
+  · rw [hr1.len]; simp
+  · unfold cbsAgree
+    rw [cbAbs_assign_map (k := s.ents.length) (by rw [hr1.len]; exact ordOf_snoc_self iss h), cbDiff_nil_left,
+      hdeps1]
+    rfl
+
 theorem create_unlocked_refines {c : CW} {s : WS} (hi : Inv c) (hb : Bounds c) (hr : Rel c s)
     (hl : c.w.isLocked = false) (t : Nat) (mask : Mask) (shared : List Nat) (hm : MaskOk mask)
     (hb' : Bounds (c.step info (.create t mask shared)).1) :
@@ -94,77 +168,21 @@ theorem create_unlocked_refines {c : CW} {s : WS} (hi : Inv c) (hb : Bounds c) (
     unfold WM.isLocked at hl0 ⊢
     rw [this]; exact hl0
   have hb1 : Bounds ⟨w1, iss⟩ := bounds_frame hb spec.1.slots
-  have ha1 : AllocOK w1 := allocOK_of_inv (c := ⟨w1, iss⟩) hi1 hb1
-  rcases create_unlocked info hi1.rows ha1 t mask sh hl1 hm with ⟨ai, vals, hstep, howns, hmask, hdata, hvals, hfresh⟩
-  rcases create_form info w1 t mask sh hl1 with ⟨vals2, hform⟩
-  have facts := bornFacts_insert w1 mask sh vals2
-  have hw'eq : (w1.create info t mask sh).1 =
-      insertRow ((w1.getArch mask sh).1.allocId).1 (w1.getArch mask sh).2 ((w1.getArch mask sh).1.allocId).2 vals2 := by
-    rw [hform]
-  have hheq : (w1.create info t mask sh).2.1 = ((w1.getArch mask sh).1.allocId).2 := by rw [hform]
-  have hcbeq : (w1.create info t mask sh).2.2 =
-      ((closedMask w1.deps mask).filter (fun c => (info c).callbacks && !([] : Mask).contains c)).map
-          (Cb.assign · (w1.create info t mask sh).2.1) := by rw [hform]
-  rw [← hw'eq, ← hheq] at facts
-  generalize hw'def : (w1.create info t mask sh).1 = w' at *
-  generalize hhdef : (w1.create info t mask sh).2.1 = h at *
-  have htab := Mustache.Proofs.IdTable.create_tab info w1 t mask sh
-  rw [hw'def, hhdef] at htab
-  simp only [hl1, Bool.false_eq_true, if_false] at htab
-  have hpool' : w'.pool = w1.pool := facts.ctl.pool
-  have hdeps' : w'.deps = w1.deps := facts.ctl.deps
-  have hshin : SharedIn w1.pool sh := spec.2.2.2.1
-  have hsh' : SharedPooled w' := by
-    have h1 := AllKeys.getArch (P := fun _ x => SharedIn w1.pool x) (w := w1) hi1.shared mask sh hshin
-    have h2 := h1.keysSame facts.keys
-    show AllKeys (fun _ x => SharedIn w'.pool x) w'
-    rw [hpool']; exact h2
-  have hdeps1 : s.deps = w1.deps := hr1.deps
   have hstepeq : CW.step info ⟨w, iss⟩ (.create t mask shared) =
-      (⟨w', iss ++ [h]⟩, .created h, (w1.create info t mask sh).2.2) := by
-    simp only [CW.step, step_create_eq, hpf, hw'def, hhdef, issueOut]
+      (⟨(w1.create info t mask sh).1, iss ++ [(w1.create info t mask sh).2.1]⟩, .created (w1.create info t mask sh).2.1,
+        (w1.create info t mask sh).2.2) := by
+    simp only [CW.step, step_create_eq, hpf, issueOut]
   rw [hstepeq] at hb'
-  -- the new record
-  have hailt : ai < w'.archs.length := by
-    rcases howns.here with ⟨n, _, hrow⟩; exact lt_of_row hrow
-  have hshai : (w'.arch ai).shared = sh := by
-    have h1 : SharedIn w1.pool (w'.arch ai).shared := by
-      have := hsh' _ (arch_mem hailt)
-      rw [← hpool']; exact this
-    exact shared_eq_of_data hi1.pool h1 hshin hdata
-  have htmok : MaskOk (closedMask w1.deps mask) := maskOk_closedMask w1.deps hm
-  have hvlen : vals.length = (closedMask w1.deps mask).length := by
-    rcases howns.here with ⟨n, _, hrow⟩
-    have := hstep.ok.vals ai n _ hrow
-    rw [hmask] at this
-    exact this
-  have hx : optRel (some ⟨rebuild info [] (closed s.deps mask) [], shared.map (fun sid => (sid, 0))⟩) (absEnt w' h) := by
-    rw [owns_absEnt howns, hmask, hshai, hpool']
-    refine ⟨?_, fun sid => ?_⟩
-    · show rebuild info [] (closed s.deps mask) [] = _
-      rw [hdeps1]
-      symm
-      apply zip_eq_rebuild info (maskOk_nodup htmok) hvlen
-      intro x hx
-      rw [specPair_nil, hvals x hx]
-    · show lookupS (shared.map (fun sid => (sid, 0))) sid = _
-      rw [spec.2.2.2.2 sid, lookupS_defaults]; simp
-  have hborn := born_refines hi1 hr1 hl1 htab.1 htab.2 hstep howns hfresh hsh' facts.ctl facts.marked
-    (facts.cover hi1.locsCover) hb' _ hx
+  have hcore := create_unlocked_core info hi1 hb1 hr1 hl1 t mask hm sh spec.2.2.2.1
+    (shared.map (fun sid => (sid, 0))) (fun sid => by rw [spec.2.2.2.2 sid, lookupS_defaults]; simp) hb'
   have hs : s.step info (Op.mapRef (ordOf iss) (.create t mask shared)) =
-      ({ s with ents := s.ents ++ [some ⟨rebuild info [] (closed s.deps mask) [], shared.map (fun sid => (sid, 0))⟩] },
-        .created s.ents.length, cbDiff info s.ents.length [] (closed s.deps mask)) := by
-    simp only [Op.mapRef, WS.step, hnl, if_false, WS.doCreate]
+      ((s.doCreate info mask (shared.map (fun sid => (sid, 0)))).1,
+        .created (s.doCreate info mask (shared.map (fun sid => (sid, 0)))).2.1,
+        (s.doCreate info mask (shared.map (fun sid => (sid, 0)))).2.2) := by
+    simp only [Op.mapRef, WS.step, hnl, if_false]
   unfold StepRefines
   rw [hstepeq, hs]
-  refine ⟨hborn.1, hborn.2, ⟨?_, ?_⟩, ?_⟩
-  · rw [hr.len]; exact ordOf_snoc_self iss h
-  · rw [hr.len]; simp
-  · simp only [isUnlockOp, Bool.false_eq_true, if_false]
-    unfold cbsAgree
-    rw [hcbeq, cbAbs_assign_map (k := s.ents.length) (by rw [hr.len]; exact ordOf_snoc_self iss h), cbDiff_nil_left,
-      hdeps1]
-    rfl
+  exact ⟨hcore.1, hcore.2.1, hcore.2.2.1, by simpa only [isUnlockOp, Bool.false_eq_true, if_false] using hcore.2.2.2⟩
 
 /-! ## `clone` -/
 
